@@ -190,7 +190,16 @@ JUNK = [b'77 N host\n', b'77 D\n', b'77 T\n', b'77 P :x y z\n', b'77 H\n', b'77 
         # numbers no 32-bit variable holds: an id 2^32 away from the live client's, ids and numerals beyond 64 bits
         b'4294967297 D\n', b'4294967297 N evil.example\n', b'-4294967295 D\n', b'99999999999999999999 D\n', b'99999999999999999999 N h\n', b'-99999999999999999999 D\n',
         b'-1 X login.svc ffffffffffffffffffffffff_1 :OK a\n', b'-1 X login.svc 1_ffffffffffffffffffffffff :NO x\n', b'-1 X login.svc 100000001_1 :NO x\n',
-        b'-1 X login.svc 1_100000001 :NO x\n', b'-1 M srv 99999999999999999999\n']
+        b'-1 X login.svc 1_100000001 :NO x\n', b'-1 M srv 99999999999999999999\n',
+        # lines without an id (they name nobody, in particular not client 0), and tags that are not the text the daemon sent although strtol() would read
+        # the live client's numbers out of them: explicit signs, 0x prefixes, an empty id, a serial written as a negative number
+        b'D\n', b'T\n', b'H\n', b'N ghost.example\n', b' D\n', b'P :+x a b\n', b': D\n',
+        b'-1 X login.svc _1 :NO x\n', b'-1 X login.svc +0_+1 :NO x\n', b'-1 X login.svc 0x0_0x1 :NO x\n', b'-1 X login.svc 0_-ffffffffffffffff :NO x\n', b'-1 X login.svc -0_1 :NO x\n',
+        b'-1 X login.svc +1_+1 :NO x\n', b'-1 X login.svc +1_+2 :NO x\n', b'-1 X login.svc 0x1_0x1 :NO x\n', b'-1 X login.svc 0X1_0X2 :NO x\n',
+        b'-1 X login.svc 1_-ffffffffffffffff :NO x\n', b'-1 X login.svc 1_-fffffffffffffffe :NO x\n']
+# a stream about client 0 (a legal id): what a line without an id, or a tag without one, must not be taken for
+ZERO_STREAM = [b'0 C 10.0.0.9 999 10.9.9.9 6667\n', b'0 N host0.example.net\n', b'0 u ident0\n', b'0 P :+x acct0 pass0\n', b'0 n Nick0\n', b'0 U user0 :Real Name 0\n',
+               b'-1 X drone.svc 0_1 :OK\n', b'-1 X login.svc 0_1 :OK acct0:7\n']
 
 def main(tier):
     run = common.Run('C08', 'exploration', tier)
@@ -226,6 +235,7 @@ def main(tier):
     streams = streams[:: max(1, len(streams) // nstreams)][:nstreams]
     if len(streams) < 10 and not run.violations and not run.capped:
         raise common.HarnessError('vacuous: corpus has only %d streams' % len(streams))
+    streams.insert(0, list(ZERO_STREAM))
     counts['corpus_streams'] = len(streams)
 
     with tpool.TracePool(conf, b) as tp:
